@@ -179,14 +179,21 @@ type dcase struct {
 }
 
 func mkMsg(path string) (*mux.Message, string, bool) {
+	// The request carries exactly the Uri-Path options a peer would put on the wire for this path - empty segments
+	// (double or trailing slash) included - and the path the router must act on is computed here from those options
+	// (RFC 7252 section 6.5: "/" + segments joined by "/"), not by the library's own reconstruction.
 	msg := pool.NewMessage(context.Background())
 	msg.SetCode(codes.GET)
-	if err := msg.SetPath(path); err != nil {
-		return nil, "", false
-	}
-	seen, _ := msg.Options().Path()
-	if seen == "" {
-		seen = "/"
+	seen := "/"
+	if path != "" && path != "/" {
+		rest := strings.TrimPrefix(path, "/")
+		for _, seg := range strings.Split(rest, "/") {
+			if len(seg) > 255 {
+				return nil, "", false
+			}
+			msg.AddOptionBytes(message.URIPath, []byte(seg))
+		}
+		seen = "/" + rest
 	}
 	return &mux.Message{Message: msg, RouteParams: new(mux.RouteParams)}, seen, true
 }
